@@ -7,6 +7,6 @@ git apply "$P" || { echo "patch does not apply"; exit 2; }
 echo "--- repo tests with the patch:"; /venv/bin/python -m pytest -q -p no:cacheprovider 2>&1 | tail -1
 for c in "$@"; do
   echo "--- ./check $c"
-  (cd /verif && ./check "$c" 2>&1 | grep -E "^VIOLATION|^KNOWN|^MACHINERY|violating cases| quick:" | cut -c1-330 | head -6)
+  (cd /verif && ./check "$c" 2>&1 | grep -E "^VIOLATION|^MACHINERY|violating cases| quick:" | cut -c1-330 | head -6)
 done
 git -C /repo checkout -- . ; git -C /repo status --short
